@@ -21,7 +21,12 @@ code -> spec: (a) the recorded syscalls of every operation are replayed through 
               inside the steps the recorder cannot see into: the tarball writer); after each cut a FRESH
               tree(location) lists the packages and loads their metadata, contents and environment;
               PkgDb_Trace judges that view with the same JudgeView (Partial / Neither / Mixed /
-              Collateral) and the uninterrupted result with ApplyOp (Effect).
+              Collateral) and the uninterrupted result with ApplyOp (Effect); (c) the operation is re-executed
+              with an I/O error (EIO / ENOSPC) injected at every mutation and inside the tarball writer: the
+              operation's OWN error handling runs, and the view the handled failure leaves behind is judged
+              with the same clauses (a handler that deletes the live old package, a failed final rename that
+              leaves the old entry hidden).  PkgDb_MC has the matching Fault / HandlerStep transitions
+              (AbortedConsistent; the naive "unlink both names" handler and replace-without-rollback MUST fail).
 Carve-outs  : binpkg replace of a different version (the repository legitimately keeps both files);
               crash = stop before a Python-level mutation, no fsync/reordering model.
 """
